@@ -37,7 +37,8 @@ RULE = ('a crash point is (system call name, n): the n-th call of that name that
         'new process resumed from the leftover file must finish under the C01/C02 hooks. thorough = ALL crash points '
         'of each configuration (exhaustive per run); quick = a stratified sample (every call name, first/last call of '
         'checkpoint writes, uniform rest). Besides plain paths the checkpoint is also given as a relative symbolic link '
-        'into another directory and (thorough) inside a directory that does not exist yet. Non-trivial = distinct crash points whose kill landed strictly inside a '
+        'into another directory, on a file system other than the temporary directory\'s (if one is writable) and (thorough) '
+        'inside a directory that does not exist yet. Non-trivial = distinct crash points whose kill landed strictly inside a '
         'checkpoint write (BEGIN logged, END not).')
 ASSUMPTIONS = ['process death only (SIGKILL, page cache survives); power loss / kernel crash is out of reach',
                'strace injects the signal on entry of the n-th matching call, i.e. the state after call n-1',
@@ -62,7 +63,23 @@ def _configs(tier):
     out.append(dict(out[0], layout='symlink'))
     if tier != 'quick':
         out.append(dict(out[0], layout='nested'))
+    # checkpoint on a different file system than the system temporary directory (node-local scratch vs shared storage
+    # on a cluster): anything that stages the new file elsewhere and "moves" it degenerates into a non-atomic copy
+    if _other_fs_dir() is not None:
+        out.append(dict(out[0], layout='otherfs'))
     return out
+
+
+def _other_fs_dir():
+    import tempfile
+    try:
+        here = os.stat(tempfile.gettempdir()).st_dev
+        for cand in ('/dev/shm', '/run/shm', os.path.expanduser('~'), '/var/tmp', env.VERIF):
+            if os.path.isdir(cand) and os.access(cand, os.W_OK) and os.stat(cand).st_dev != here:
+                return cand
+    except OSError:
+        pass
+    return None
 
 
 def _layout(d, layout):
@@ -76,6 +93,12 @@ def _layout(d, layout):
     if layout == 'nested':
         ck = os.path.join(d, 'a', 'b', 'ck.hdf5')
         return ck, [ck, ck + '.tmp']
+    if layout == 'otherfs':
+        import tempfile
+        base = tempfile.mkdtemp(prefix='nmon-c06-', dir=_other_fs_dir())
+        open(os.path.join(d, 'otherfs-dir'), 'w').write(base)       # removed together with the run directory
+        ck = os.path.join(base, 'ck.hdf5')
+        return ck, [ck, ck + '.tmp']
     ck = os.path.join(d, 'ck.hdf5')
     return ck, [ck, ck + '.tmp']
 
@@ -86,6 +109,12 @@ def gen_cases(tier, seed):
         for c in range(N_CASES):
             cases.append({'i': len(cases), 'seed': seed, 'conf': conf, 'j': j, 'part': c, 'parts': N_CASES, 'tier': tier})
     return cases
+
+
+def _cleanup_otherfs(d):
+    f = os.path.join(d, 'otherfs-dir')
+    if os.path.exists(f):
+        shutil.rmtree(open(f).read().strip(), ignore_errors=True)
 
 
 def _strace(args, spec_path, ckpt, watch, side, statedir, trace_out, timeout=600):
@@ -178,7 +207,7 @@ def run_case(spec):
                 for n in {1, 2, c, max(c - 1, 1), (c + 1) // 2}:
                     chosen.add((sc, n))
             rest = [pt for pt in points if pt not in chosen]
-            target = 64 if conf.get('layout', 'plain') == 'plain' else 48
+            target = 64 if conf.get('layout', 'plain') == 'plain' else (48 if conf.get('layout') == 'symlink' else 40)
             for idx in rng.choice(len(rest), size=min(max(target - len(chosen), 8), len(rest)), replace=False):
                 chosen.add(rest[int(idx)])
             points = sorted(chosen, key=lambda t: (SYSCALLS.index(t[0]), t[1]))
@@ -188,6 +217,7 @@ def run_case(spec):
         # ---------------- kill runs
         for (sc, n) in mine:
             kdir = os.path.join(scratch, 'kill')
+            _cleanup_otherfs(kdir)
             shutil.rmtree(kdir, ignore_errors=True)
             os.makedirs(os.path.join(kdir, 'states'))
             ck, watch = _layout(kdir, conf.get('layout', 'plain'))
@@ -266,6 +296,8 @@ def run_case(spec):
                 bad('crash.continuation-raises', 'resumed from the file left by SIGKILL at %s #%d (%s): %r'
                     % (sc, n, where, ex), point=[sc, n])
         obs['distinct_leftover_states_max'] = len(leftovers)
+        _cleanup_otherfs(os.path.join(scratch, 'kill'))
+        _cleanup_otherfs(cdir)
     nn = obs['kills_inside_write'] + obs['kills_inside_update']
     res = {'obs': obs, 'nontrivial': nn > 0, 'nontrivial_count': nn,
            'key': 'cfg%d-part%d' % (spec['j'], spec['part']),
